@@ -660,6 +660,25 @@ def gen_box_points(rng, box, shape, far=False):
     return (frac @ b).astype(np.float32)
 
 
+def prime_box_object(rng, ctx, box, pts):
+    """The caller's box array has held other values before: the same ndarray object was used for calls, then edited in
+    place (a simulation box that is rescaled every step).  The judged calls must depend on its current content only."""
+    if rng.random() >= 0.3 or not isinstance(box, np.ndarray) or not box.flags.writeable:
+        return
+    saved = box.copy()
+    box *= box.dtype.type(1.37)
+    box[..., 0, :] *= box.dtype.type(0.5)
+    with np.errstate(all="ignore"):
+        for fn in (lambda: struc.coord_to_fraction(pts, box), lambda: struc.move_inside_box(pts, box),
+                   lambda: struc.displacement(pts, pts, box), lambda: struc.is_orthogonal(box)):
+            try:
+                fn()
+            except Exception:
+                pass
+    box[...] = saved
+    ctx.op("box_object_edited_in_place_between_calls")
+
+
 def per_model(fn, diff, box):
     """Apply fn(diff_i, box_i) for per-model boxes (m,3,3) or one box."""
     box = np.asarray(box)
@@ -740,6 +759,7 @@ def case_pbc(rng, ctx):
     ctx.op("box_per_model" if per else "box_single")
     a, b, c, d = pts
     A, B, C, D = (wrap_form(form, p) for p in pts)
+    prime_box_object(rng, ctx, box, a)
     eps = E32
     M2 = absmax(a) + absmax(b)
     # ---- displacement / distance
@@ -869,6 +889,7 @@ def case_helpers(rng, ctx):
         ctx.log(sub, bk, cdt.__name__, bdt.__name__, np.asarray(box, np.float64).tolist(), x64.tolist() if x.size <= 60 else list(x.shape))
         for k in bk:
             ctx.op("box_" + k)
+        prime_box_object(rng, ctx, box, x)
         b64 = np.asarray(box, np.float64)
         inv = np.linalg.inv(b64)
         if sub == "move_inside":
